@@ -63,6 +63,16 @@ impl TwoWorld {
         }
         if self.observer_joins {
             s.alphabet_for.push((OBS, "JOIN #p"));
+            // a former member is an outsider again, however it left
+            s.alphabet_for.push((OBS, "PART #p"));
+            s.alphabet_for.push((1, "KICK #p obs"));
+            if self.kind == Hidden::SecretChannel {
+                s.alphabet_for.push((OBS, "JOIN #s"));
+                s.alphabet_for.push((0, "KICK #s obs"));
+                if self.full {
+                    s.alphabet_for.push((OBS, "PART #s"));
+                }
+            }
         }
         s
     }
